@@ -452,7 +452,10 @@ func CalculateBestCacheSize(argb []uint32, quality int, refs *BackwardRefs, cach
 		ls := histogramNumCodes(i)
 		histoSlab[i].Literal = litSlab[litOff : litOff+ls : litOff+ls]
 		histoSlab[i].paletteCodeBits = i
-		histoSlab[i].resetStats()
+		// The slab is pooled scratch (Encoder.brScratch): Clear, not just
+		// resetStats, so that the Red/Blue/Alpha/Distance counts accumulated
+		// by a previous encode cannot leak into this call's cost estimate.
+		histoSlab[i].Clear()
 		histos[i] = &histoSlab[i]
 		litOff += ls
 	}
